@@ -309,10 +309,26 @@ func runC06(r *ev.Run) {
 						failingWithParts++
 					}
 				}
+				// the refused document names a fresh id, a LIVE id (an update that is refused: the old document stays, and
+				// can still be removed) or an id that was removed earlier (it stays unknown: Remove keeps failing)
 				id := ids.next()
-				useAuto := rng.IntN(3) == 0
-				hist = append(hist, hybridOp{"failing-add:" + kind, id, cloneF32(v), text, map[string]any{"n_fields": len(md)}})
-				noEffect("Add with "+kind, func() error {
+				target := "fresh"
+				switch rng.IntN(3) {
+				case 1:
+					if live := sortedKeys(h.docs); len(live) > 0 {
+						id, target = live[rng.IntN(len(live))], "live"
+					}
+				case 2:
+					for _, rid := range removedIDs {
+						if !h.docs[rid] {
+							id, target = rid, "removed"
+							break
+						}
+					}
+				}
+				useAuto := target == "fresh" && rng.IntN(3) == 0
+				hist = append(hist, hybridOp{"failing-add:" + kind + ":" + target, id, cloneF32(v), text, map[string]any{"n_fields": len(md)}})
+				noEffect("Add with "+kind+" on a "+target+" id", func() error {
 					if useAuto {
 						_, err := sut.idx.Add(cloneF32(v), text, md)
 						return err
@@ -320,6 +336,24 @@ func runC06(r *ev.Run) {
 					return sut.idx.AddWithID(id, cloneF32(v), text, md)
 				}, true)
 				r.Count("ops:failing-add:"+kind, 1)
+				r.Count("ops:failing-add-on-"+target+"-id", 1)
+				if dead || useAuto || rng.IntN(2) == 0 {
+					break
+				}
+				if target == "live" {
+					// the refused update left the old document in place: removing it works and really removes it
+					hist = append(hist, hybridOp{Op: "remove-after-refused-update", ID: id})
+					if err := sut.idx.Remove(id); err != nil {
+						rep("c06.remove-error", fmt.Sprintf("Remove(%d) of a live document (after a refused AddWithID on it): %v", id, err))
+					}
+					h.remove(id)
+					removedIDs = append(removedIDs, id)
+					removals++
+				} else {
+					hist = append(hist, hybridOp{Op: "remove-after-refused-add", ID: id})
+					noEffect(fmt.Sprintf("Remove(%d) of an id whose only/last add was refused", id), func() error { return sut.idx.Remove(id) }, true)
+				}
+				r.Count("ops:remove-after-refused-add-on-"+target+"-id", 1)
 			case c < 14: // remove
 				live := sortedKeys(h.docs)
 				id := live[rng.IntN(len(live))]
